@@ -9,4 +9,7 @@ describe('C04', level='proof', floor=5, explanation='feasibility: prox range, ke
 describe('C18', level='proof', floor=3, explanation='frame conditions of kernels')
 describe('C19', level='proof', floor=3, explanation='degenerate data: zero columns, safety of divisions in kernels')
 describe('C10', level='proof', floor=50, explanation='storage independence of accessors and epoch kernels (bounded shapes, every CSC pattern)')
-describe('C20', level='proof', floor=2, explanation='subscripts of compiled kernels stay inside their arrays (bounded complement: CPython bounds checks on every symbolic kernel run)')
+describe('C20', level='proof', floor=2,
+         explanation='caller side [U]: shape / index preconditions of every compiled kernel established at its call sites in `_solve` (opaque mode); '
+                     'callee side [B]: CPython bounds checks on every symbolic run of the real kernels',
+         assumptions=['kernel bodies only on enumerated shapes (bounded)', 'len(datafit.get_lipschitz(...)) == number of items is the shape contract of the datafit (values: C09)'])
